@@ -8,7 +8,14 @@ for d in sorted(glob.glob(V + "/seeded/*/meta.json")):
     sid = os.path.basename(os.path.dirname(d))
     c = m.get("confirmation", {})
     checks = c.get("checks_on_patched_tree", {})
+    first = {}
+    for er in m.get("earlier_check_runs", []):
+        for k, v in er.get("checks_on_patched_tree", {}).items():
+            first.setdefault(k, v)
     det = ", ".join("%s %s (%s, %.0f s)" % (k, "**detects**" if v.get("detected") else "silent", v.get("tier", "quick"), v.get("wall_s", 0)) for k, v in sorted(checks.items()))
+    missed = [k for k, v in first.items() if not v.get("detected") and checks.get(k, {}).get("detected")]
+    if missed:
+        det += "; **first version of %s did not report it** (%s) -- strengthened since" % (", ".join(missed), "; ".join("machinery error" if "MACHINERY" in first[k].get("output", "") else "silent" for k in missed))
     summ = (m.get("summary") or "").strip().replace("\n", " ").replace("|", "/")
     if len(summ) > 230:
         summ = summ[:227] + "..."
